@@ -176,3 +176,5 @@ def run(ctx, tier: str, seed: int) -> None:
         check_trees(ctx, "fc-expression/4-leaves", four, exhaustive,
                     f"{'all' if exhaustive else 'seeded sample of ' + str(n) + ' of the'} valid in-domain trees with 4 "
                     "leaves and >=1 format-constraint key", deadline)
+    from bounded.c04 import run_same_tree
+    run_same_tree(ctx, "C07")
